@@ -319,6 +319,7 @@ typedef struct {
     int max_ok_rc;         /* largest rc that counts as documented success */
     const char *const *quick_only; /* quick tier: only these seeds (thorough: all seeds of the kinds) */
     const char *const *byte_only;  /* quick tier: byte-value class only for these seeds; thorough: 255 values for these, 8 for the others */
+    const char *const *der_only;   /* quick tier: DER-structure class only for these seeds (thorough: all) */
 } entry_t;
 
 static const char *const lk_cert_seeds[] = { "EC/256_EC.pem", "RSA/1024_RSA.pem", "EC/ED25519.pem", NULL };
@@ -329,6 +330,12 @@ static const char *const x509data_der_seeds[] = { "EC/256_EC.pem", "RSA/2048_RSA
 
 static const char *const x509_quick_seeds[] = { "EC/256_EC.pem", "RSA/2048_RSA.pem", "EC/ED25519.pem", "RSA/2048_RSA_PSS.pem", "embedded/rich_ec256.der",
     "RSA/1024_RSA_MD4.pem", "ECDH_RSA/ALL_ECDH-RSA_CAS.pem", "EC/ALL_EC_CAS_EXCEPT_P192_P224_AND_P521.pem", NULL };
+static const char *const x509_der_seeds[] = { "EC/256_EC.pem", "RSA/2048_RSA.pem", "EC/ED25519.pem", "RSA/2048_RSA_PSS.pem", "embedded/rich_ec256.der",
+    "RSA/1024_RSA_MD4.pem", "ECDH_RSA/ALL_ECDH-RSA_CAS.pem", "EC/ALL_EC_CAS_EXCEPT_P192_P224_AND_P521.pem", "EC/192_EC.pem", "EC/224_EC.pem", "EC/384_EC.pem",
+    "EC/521_EC.pem", "EC/521_EC_CA.pem", "EC/ED25519_CA.pem", "RSA/1024_RSA.pem", "RSA/3072_RSA.pem", "RSA/4096_RSA_CA.pem", "RSA/2048_RSA_SHA1.pem",
+    "RSA/2048_RSA_SHA512.pem", "RSA/2048_RSA_PSS_CA.pem", "ECDH_RSA/256_ECDH-RSA.pem", "ECDH_RSA/ecdsaCert.pem", "trusted-roots/DSTRootCAX3.pem",
+    "trusted-roots/DigiCertGlobalRootCA.pem", NULL };
+static const char *const x509_quick4_seeds[] = { "EC/256_EC.pem", "RSA/2048_RSA_PSS.pem", "embedded/rich_ec256.der", "EC/ALL_EC_CAS_EXCEPT_P192_P224_AND_P521.pem", NULL };
 static const char *const pem_cert_byte_seeds[] = { "EC/256_EC.pem", "RSA/1024_RSA.pem", "EC/ED25519.pem", "RSA/2048_RSA_PSS.pem", "embedded/rich_ec256.pem",
     "ECDH_RSA/ALL_ECDH-RSA_CAS.pem", NULL };
 static const char *const pem_any_byte_seeds[] = { "EC/256_EC_KEY.pem", "RSA/1024_RSA_KEY.pem", "EC/ED25519_KEY.pem", "EC/256_EC.pem", "RSA/2048_RSA_PUB.pem",
@@ -336,8 +343,8 @@ static const char *const pem_any_byte_seeds[] = { "EC/256_EC_KEY.pem", "RSA/1024
     "RSA/2048_RSA_KEY_encrypted.pem", NULL };
 #define STORE (CERT_STORE_UNPARSED_BUFFER | CERT_STORE_DN_BUFFER)
 static const entry_t entries[] = {
-    { "psX509ParseCert/flags0", F_X509, 0, NULL, KB(K_CERT_DER), 0, C_ALL, 0, NULL, INT_MAX, x509_quick_seeds },
-    { "psX509ParseCert/store", F_X509, STORE, NULL, KB(K_CERT_DER), 0, C_ALL, 0, NULL, INT_MAX },
+    { "psX509ParseCert/flags0", F_X509, 0, NULL, KB(K_CERT_DER), 0, C_ALL, 0, NULL, INT_MAX, x509_quick4_seeds },
+    { "psX509ParseCert/store", F_X509, STORE, NULL, KB(K_CERT_DER), 0, C_ALL, 0, NULL, INT_MAX, NULL, x509_quick_seeds, x509_der_seeds },
     { "psX509ParseCert/partial", F_X509, STORE | CERT_ALLOW_BUNDLE_PARTIAL_PARSE, NULL, KB(K_CERT_DER), 0, C_ALL, 0, NULL, INT_MAX, x509_quick_seeds },
     { "psX509ParseCertData/pem", F_X509DATA, STORE, NULL, KB(K_CERT_PEM), 1, C_ALL, 4000, NULL, INT_MAX, NULL, pem_cert_byte_seeds },
     { "psX509ParseCertData/pem-partial", F_X509DATA, STORE | CERT_ALLOW_BUNDLE_PARTIAL_PARSE, NULL, KB(K_CERT_PEM), 1, C_IDENT | C_TRUNC | C_PEM, 0, NULL, INT_MAX },
@@ -354,7 +361,7 @@ static const entry_t entries[] = {
     { "psParseUnknownPrivKeyMem", F_UNKPRIV, 0, NULL, KB(K_RSAKEY_DER) | KB(K_ECKEY_DER) | KB(K_P8_DER) | KB(K_MISC_DER), 0, C_ALL, 700, NULL, 16 },
     { "psParseUnknownPrivKeyMem/pass", F_UNKPRIV, 0, C09_PASSWORD, KB(K_P8E_DER), 0, C_IDENT | C_TRUNC | C_DER, 0, NULL, 16 },
     { "psPkcs12ParseMem", F_P12, 0, C09_PASSWORD, KB(K_P12), 0, C_ALL, 0, NULL, 0 },
-    { "matrixSslLoadPkcs12Mem", F_LOADP12, 0, C09_PASSWORD, KB(K_P12), 0, C_ALL, 0, NULL, 0 },
+    { "matrixSslLoadPkcs12Mem", F_LOADP12, 0, C09_PASSWORD, KB(K_P12), 0, C_IDENT | C_TRUNC | C_DER, 0, NULL, 0 },
     { "psPemDecode", F_PEMDEC, 0, NULL, KB(K_KEY_PEM) | KB(K_CERT_PEM) | KB(K_PUB_PEM) | KB(K_MISC_PEM) | KB(K_ENCKEY_PEM), 1, C_ALL, 2000, NULL, 0, NULL, pem_any_byte_seeds },
     { "psPemDecode/pass", F_PEMDEC, 0, C09_PASSWORD, KB(K_KEY_PEM) | KB(K_ENCKEY_PEM), 1, C_ALL, 2000, NULL, 0, NULL, pem_any_byte_seeds },
     { "psPemDecode/unterminated", F_PEMDEC, 0, C09_PASSWORD, KB(K_ENCKEY_PEM), 0, C_IDENT | C_RAW | C_PEM, 0, NULL, 0 },
@@ -363,7 +370,7 @@ static const entry_t entries[] = {
     { "matrixSslLoadKeysMem/key-pem", F_LOADKEYS, 1, NULL, KB(K_KEY_PEM), 1, C_ALL, 0, lk_key_seeds, 0 },
     { "matrixSslLoadKeysMem/ca-pem", F_LOADKEYS, 2, NULL, KB(K_CERT_PEM), 1, C_ALL, 0, lk_ca_seeds, 0 },
     { "matrixSslLoadKeysMem/cert-der", F_LOADKEYS, 0, NULL, KB(K_CERT_DER), 1, C_IDENT | C_TRUNC | C_DER, 0, lk_cert_seeds, 0 },
-    { "matrixSslLoadKeysMem/key-der", F_LOADKEYS, 1, NULL, KB(K_ECKEY_DER) | KB(K_RSAKEY_DER) | KB(K_P8_DER), 1, C_ALL, 0, lk_key_seeds, 0 },
+    { "matrixSslLoadKeysMem/key-der", F_LOADKEYS, 1, NULL, KB(K_ECKEY_DER) | KB(K_RSAKEY_DER) | KB(K_P8_DER), 1, C_IDENT | C_TRUNC | C_DER, 0, lk_key_seeds, 0 },
     { "matrixSslLoadKeysMem/ca-der", F_LOADKEYS, 2, NULL, KB(K_CERT_DER), 1, C_IDENT | C_TRUNC | C_DER, 0, lk_ca_seeds, 0 },
     { "psPkcs3ParseDhParamBin", F_DH, 0, NULL, KB(K_DH_DER) | KB(K_MISC_DER), 0, C_ALL | C_RAW3, 1300, NULL, 0 },
     { "psParseUnknownPubKeyMem", F_UNKPUB, 0, NULL, KB(K_PUB_DER) | KB(K_PUB_PEM), 1, C_ALL, 0, NULL, 0 },
@@ -882,7 +889,7 @@ static void layout_of(const entry_t *E, int si, const dtree_t *t, layout_t *L)
         if (E->classes & C_IDENT) L->n_ident = 1;
         if (E->classes & C_TRUNC) L->n_trunc = (long) s->len;
         if ((E->classes & C_BYTE) && (E->byte_cap == 0 || s->len <= E->byte_cap) && (thorough || listed)) L->n_byte = (long) s->len * L->vals;
-        if ((E->classes & C_DER) && !s->text && t) L->n_der = (long) t->count * DOP_PER_NODE;
+        if ((E->classes & C_DER) && !s->text && t && (thorough || E->der_only == NULL || seed_in_list(s, E->der_only))) L->n_der = (long) t->count * DOP_PER_NODE;
         if ((E->classes & C_PEM) && s->text) L->n_pem = PEM_NEDITS;
         L->total = L->n_ident + L->n_trunc + L->n_byte + L->n_der + L->n_pem;
     }
@@ -1034,6 +1041,18 @@ static int bucket_skipped(int top, int sub)
     return 0;
 }
 
+/* allocation bound per parser call: no honest parse needs more than a few thousand allocations */
+#define ALLOC_BOUND 60000
+static int alloc_bound_hook(long k)
+{
+    if (k > ALLOC_BOUND)
+    {
+        fprintf(stderr, "c09: allocation runaway: more than %d allocations inside one parser call\n", ALLOC_BOUND);
+        abort();
+    }
+    return 0;
+}
+
 /* run one case in this process; returns 0 ok / 1 violation (f filled) / -1 not applicable / -2 skipped by flood control */
 static int run_case(const entry_t *E, int si, long idx, bfind_t *f, int *ok, int *rcout, int verbose)
 {
@@ -1076,6 +1095,8 @@ static int run_case(const entry_t *E, int si, long idx, bfind_t *f, int *ok, int
             in[m.len] = 0;
         }
         env_reset(0);
+        env_alloc_count = 0;
+        env_alloc_hook = alloc_bound_hook;
         live0 = env_live();
         env_track(1);
         rc = run_entry(E, in, m.len);
@@ -1288,10 +1309,10 @@ static void classify_crash(int st, char *kind, size_t kn, char *site, size_t sn,
         snprintf(kind, kn, "crash-exit%d", WEXITSTATUS(st));
         snprintf(line, ln, "child exited with status %d without finishing", WEXITSTATUS(st));
     }
-    if (strstr(capbuf, "env: live table full"))
+    if (strstr(capbuf, "env: live table full") || strstr(capbuf, "c09: allocation runaway"))
     {
         snprintf(kind, kn, "alloc-runaway");
-        snprintf(line, ln, "more than 262144 live allocations inside one parser call (unbounded loop)");
+        snprintf(line, ln, "more than %d allocations inside one parser call (unbounded loop)", ALLOC_BOUND);
     }
     /* first stack frame of the first stack that belongs to the library: frames up to and including the last
      * interceptor / allocator-seam frame are skipped */
